@@ -39,10 +39,10 @@ TS2 = "; plus thread-level stateless model checking (tsched): preemption-bounded
 BT = "; plus exhaustive enumeration of operation-level orders of real OS threads (bthreads) for the blocking_* forms"
 TECH = {
     "C01": MSCHED_TECH + BT + TS2,
-    "C03": MSCHED_TECH + TS2,
+    "C03": MSCHED_TECH + TS2 + BT,
     "C02": MSCHED_TECH + BT,
     "C05": MSCHED_TECH + "; plus exhaustive enumeration of all 18 ActorResult shapes",
-    "C09": MSCHED_TECH + BT + "; plus exhaustive enumeration of call sequences (one fresh process each) against a reference model",
+    "C09": MSCHED_TECH + " (default build and deadlock-detection build)" + BT + "; plus exhaustive enumeration of call sequences (one fresh process each) against a reference model",
     "C10": MSCHED_TECH + " under a virtual clock" + BT + "; plus exhaustive enumeration of the Error variants",
     "C11": MSCHED_TECH + TS + " (decide); a sampling multi-thread stress run is reported alongside, labelled non-deciding",
     "C12": MSCHED_TECH + ", on two builds" + BT,
